@@ -33,46 +33,35 @@ def find_call(b, suffix):
 def r1(ctx):
     rep = Report("C20.R1", "options reach their consumers in both runtime builders (sibling agreement)", floor=14)
     f = ctx.facts
+    from rules import builderfacts
+
     for fn in BUILDERS:
-        b = f.one(RB + fn)
+        bf = builderfacts.builder_facts(ctx, fn)
+        b = bf["body"]
         rep.analysed(b)
-        sa = find_call(b, "std::net::SocketAddr::new")
-        okaddr = len(sa) == 1 and chase_mentions(b, sa[0][1].args[0], ("listen_address",)) and chase_mentions(b, sa[0][1].args[1], ("port",))
-        rep.check(okaddr, "%s:addr" % fn, "SocketAddr::new(args.listen_address, args.port)", "%s does not build the listen address from the CLI address and port" % fn, b.loc())
-        sc = find_call(b, "MemcacheServerConfig::new")
-        if len(sc) != 1:
-            rep.bad("%s:server-config" % fn, "%s has %d MemcacheServerConfig::new calls" % (fn, len(sc)), b.loc())
+        if not bf["news"]:
+            rep.bad("%s:server-config" % fn, "%s builds no MemcacheTcpServer" % fn, b.loc())
             continue
-        t = sc[0][1]
-        a0 = t.args[0].const_val()
-        rep.check(a0 == 60, "%s:timeout" % fn, "timeout 60 s", "%s configures a %s s idle timeout (60 s in the sibling / documented)" % (fn, a0), loc_s(t.span))
-        rep.check(chase_mentions(b, t.args[1], ("connection_limit",)), "%s:connection_limit" % fn, "arg#1 <- connection_limit", "%s passes something else than the CLI connection limit as connection_limit" % fn, loc_s(t.span))
-        rep.check(chase_mentions(b, t.args[2], ("item_size_limit",)), "%s:item_size_limit" % fn, "arg#2 <- item_size_limit", "%s passes something else than the CLI item size limit as item_memory_limit" % fn, loc_s(t.span))
-        rep.check(chase_mentions(b, t.args[3], ("backlog_limit",)), "%s:backlog" % fn, "arg#3 <- backlog_limit", "%s passes something else than the CLI backlog as listen_backlog" % fn, loc_s(t.span))
-        # the server runs on the address built above
-        runs = []
-        for body in [b] + f.closures_of(b.path):
-            runs += [(body, t2) for _bb, t2 in find_call(body, SERVER.split("::")[-1] + "::run")]
-        rep.check(len(runs) == 1, "%s:run" % fn, "one tcp_server.run(addr)", "%s starts the server %d times" % (fn, len(runs)), b.loc())
-        for body, t2 in runs:
-            ok = True
-            if body is b:
-                ok = chase_calls(b, t2.args[1], lambda n: n == "std::net::SocketAddr::new")
-            else:
-                # captured `addr`
-                ok = any(cap["name"] == "addr" for cap in body.captures)
-            rep.check(ok, "%s:run(addr)" % fn, "run(addr) with the configured address", "%s runs the server on another address than the configured one" % fn, loc_s(t2.span))
+        cfgs = [cfg for cfg, _st, _e in bf["news"]]
+        rep.check(all(field_of(c, "timeout_secs") == 60 for c in cfgs), "%s:timeout" % fn, "timeout 60 s", "%s configures a %s s idle timeout (60 s in the sibling / documented)" % (fn, short(field_of(cfgs[0], "timeout_secs"), 20)), b.loc())
+        rep.check(all(field_of(c, "connection_limit") == F(P("config"), "connection_limit") for c in cfgs), "%s:connection_limit" % fn, "connection_limit <- args.connection_limit", "%s passes %s as connection_limit" % (fn, short(field_of(cfgs[0], "connection_limit"), 60)), b.loc())
+        rep.check(all(F(P("config"), "item_size_limit") in atoms(field_of(c, "item_memory_limit")) for c in cfgs), "%s:item_size_limit" % fn, "item_memory_limit <- args.item_size_limit", "%s passes %s as item_memory_limit" % (fn, short(field_of(cfgs[0], "item_memory_limit"), 60)), b.loc())
+        rep.check(all(field_of(c, "listen_backlog") == F(P("config"), "backlog_limit") for c in cfgs), "%s:backlog" % fn, "listen_backlog <- args.backlog_limit", "%s passes %s as listen_backlog" % (fn, short(field_of(cfgs[0], "listen_backlog"), 60)), b.loc())
+        rep.check(bool(bf["runs"]), "%s:run" % fn, "the server is started", "%s never starts the server" % fn, b.loc())
+        okaddr = bool(bf["runs"])
+        for addr, _e in bf["runs"]:
+            a = tform(addr)
+            if not (isinstance(a, tuple) and a[0] == "call" and a[1] == "std::net::SocketAddr::new" and a[3] == (F(P("config"), "listen_address"), F(P("config"), "port"))):
+                okaddr = False
+        rep.check(okaddr, "%s:run(addr)" % fn, "run(SocketAddr::new(args.listen_address, args.port))", "%s runs the server on %s, not on the configured address and port" % (fn, short(bf["runs"][0][0], 80) if bf["runs"] else "?"), b.loc())
     # threads
-    b = f.one(RB + "create_threadpool_server")
-    mt = find_call(b, "create_multi_thread_runtime")
-    rep.check(len(mt) == 1 and chase_mentions(b, mt[0][1].args[0], ("threads",)), "threadpool:threads", "worker pool sized by args.threads", "the multi-thread runtime is not sized by the CLI thread count", b.loc())
+    bf = builderfacts.builder_facts(ctx, "create_threadpool_server")
+    rep.check(bool(bf["mt_runtime"]) and all(x == F(P("config"), "threads") for x in bf["mt_runtime"]), "threadpool:threads", "worker pool sized by args.threads", "the multi-thread runtime is not sized by the CLI thread count", bf["body"].loc())
     mb = f.one(RB + "create_multi_thread_runtime")
     wt = find_call(mb, "worker_threads")
-    rep.check(len(wt) == 1 and wt[0][1].args[1].place is not None and mb.local_name(wt[0][1].args[1].place.local) in ("worker_threads", None) and chase_param(mb, wt[0][1].args[1], 1), "multi_thread_runtime:worker_threads", "Builder::worker_threads(<- parameter)", "create_multi_thread_runtime does not pass its argument to worker_threads", mb.loc())
-    b = f.one(RB + "create_current_thread_server")
-    it = find_call(b, "IntoIterator::into_iter")
-    okt = any(range_end_mentions(b, t.args[0], ("threads",)) for _bb, t in it)
-    rep.check(okt, "current_thread:threads", "one listener thread per args.threads", "the number of listener threads is not the CLI thread count", b.loc())
+    rep.check(len(wt) == 1 and chase_param(mb, wt[0][1].args[1], 1), "multi_thread_runtime:worker_threads", "Builder::worker_threads(<- parameter)", "create_multi_thread_runtime does not pass its argument to worker_threads", mb.loc())
+    bf = builderfacts.builder_facts(ctx, "create_current_thread_server")
+    rep.check(bool(bf["range_ends"]) and all(x == F(P("config"), "threads") for x in bf["range_ends"]) and bf["thread_spawns"] > 0, "current_thread:threads", "one listener thread per args.threads", "the number of listener threads is not the CLI thread count", bf["body"].loc())
     # timeout plumbing: server config -> client config -> Duration::from_secs
     gb = f.one(SERVER + "::get_client_config")
     for p in Interp(f).run(gb, [P("self")]):
@@ -227,18 +216,53 @@ def r4(ctx):
         region = mb.reach_from(start, stop=(stop,))
         early = [x for x in region if mb.blocks[x].term.k == "return"]
         rep.check(not early and mb.dominates(cs[0][0], stop), "main:clock-driven-in-every-mode", "block_on(run) on every path after the server is built", "there is a path on which the server runs but the clock is not driven: items never expire in that configuration", loc_s(bo[0][1].span))
-    # timer internals
-    rb = f.one("memcrs::server::timer::SystemTimer::run::{closure#0}")
-    fs = find_call(rb, "std::time::Duration::from_secs")
-    ia = find_call(rb, "tokio::time::interval_at")
-    tk = find_call(rb, "Interval::tick")
-    asx = find_call(rb, "add_second")
-    rep.check(len(fs) == 1 and fs[0][1].args[0].const_val() == 1 and len(ia) == 1 and chase_calls(rb, ia[0][1].args[1], lambda n: n == "std::time::Duration::from_secs"), "timer:1s-interval", "interval_at(_, from_secs(1))", "the clock interval is not 1 second (from_secs(%s))" % (fs[0][1].args[0].const_val() if fs else "?"), rb.loc())
-    in_loop = False
-    if tk and asx:
-        loops = [natural_loop(rb, t_, h) for t_, h in rb.has_cycle()]
-        in_loop = any(tk[0][0] in L and asx[0][0] in L for L in loops) and rb.dominates(tk[0][0], asx[0][0])
-    rep.check(in_loop, "timer:tick-then-add_second", "loop { tick().await; add_second() }", "the timer loop does not advance the clock once per tick", rb.loc())
+    # timer internals (by abstract interpretation of the run loop: robust to helper extraction / named constants)
+    rpath = "memcrs::server::timer::SystemTimer::run::{closure#0}"
+    rb = f.one(rpath)
+    I = Interp(f, loop_bound=2)
+    paths = I.run(rb, [ClosureV(rpath, [P("self")], "coroutine"), P("cx")])
+    period_ok = None
+    tick_ok = None
+    for p in paths:
+        seq = []
+        for e in p.events:
+            if e.kind == "call" and e.name == "tokio::time::interval_at":
+                per = tform(e.args[1])
+                if isinstance(per, tuple) and per[0] == "call" and per[1] == "std::time::Duration::from_secs":
+                    ok = per[3] == (1,)
+                elif isinstance(per, tuple) and per[0] == "constitem" and len(per) > 2:
+                    ok = "secs: 1_u64" in per[2] and ("nanos: 0" in per[2] or "Nanoseconds(0" in per[2])
+                else:
+                    ok = False
+                period_ok = ok if period_ok is None else (period_ok and ok)
+            elif e.kind == "await" and "Interval::tick" in repr(tform(e.args[0])):
+                seq.append("tick")
+            elif e.kind == "call" and e.name.endswith("fetch_add") and tform(e.args[0]) == F(P("self"), "seconds"):
+                seq.append("add:%s" % short(e.args[1], 10))
+        if "tick" in seq:
+            # between two ticks exactly one add of 1; nothing added before the first tick
+            good = True
+            first = seq.index("tick")
+            if any(x.startswith("add") for x in seq[:first]):
+                good = False
+            chunks = []
+            cur = []
+            for x in seq[first + 1:]:
+                if x == "tick":
+                    chunks.append(cur)
+                    cur = []
+                else:
+                    cur.append(x)
+            for c in chunks:
+                if c != ["add:1"]:
+                    good = False
+            if not chunks and cur not in (["add:1"], []):
+                good = False
+            if not chunks and cur == [] and not p.cut:
+                good = False
+            tick_ok = good if tick_ok is None else (tick_ok and good)
+    rep.check(period_ok is True, "timer:1s-interval", "interval_at(_, 1 s)", "the clock interval is not 1 second", rb.loc())
+    rep.check(tick_ok is True and bool(rb.has_cycle()), "timer:tick-then-add_second", "loop { tick().await; seconds += 1 }", "the timer loop does not advance the clock by exactly one per tick", rb.loc())
     ab = f.one("<memcrs::server::timer::SystemTimer as memcrs::server::timer::SetableTimer>::add_second")
     tb = f.one("<memcrs::server::timer::SystemTimer as memcrs::server::timer::Timer>::timestamp")
     oka = okt = False
